@@ -251,12 +251,17 @@ def _veh_shard(shard) -> Dict[str, Any]:
     findings = {}
     n = 0
     samples = []
-    for dt in DTS:
+    for dt, throttle in itertools.product(DTS, (1.0, 0.24)):
         cfg = make_config(step=dt)
         env = Environment(config=cfg, mechatronics=immutables.Map(mt), chargers=ct, reporter=CapturingReporter())
         rn = HaversineRoadNetwork(sim_h3_resolution=15)
         plugs = {"LEVEL_2": 1, "DCFC": 1} if et == EnergyType.ELECTRIC else {"GAS_PUMP": 1}
         st = mk_station(env, rn, "s0", S["A"], plugs)
+        # throttle < 1: a station whose plug rates were lowered at run time (Station.scale_charger_rate, the grid
+        # co-simulation hook): the plug that counts is the station's own charger instance, not the catalogue entry
+        if throttle < 1.0:
+            for cid in plugs:
+                st = st.scale_charger_rate(cid, throttle).unwrap()
         for lname, lvl in initial_levels(m).items():
             v = mk_vehicle(m, mech_id, lvl)
             v = v.modify_position(rn.position_from_geoid(S["A"]))
